@@ -136,6 +136,13 @@ class BundleInstance:
         cp.props = Properties(inner=dict(self.props.inner))
         return cp
 
+    def __deepcopy__(self, _memo) -> "BundleInstance":
+        """BundleInstance "deep" copies"""
+        # The same as shallow ones, like those of `Signal`.
+        # Notably the parent Module, the target `Bundle` and the references handed out are *not* copied:
+        # a port cloned into another Module is a new instance of the same `Bundle`.
+        return self.__copy__()
+
     def __rmul__(self, num: int) -> List["Self"]:
         """# Right multiplication. Creates `num` copies of ourselves."""
         if not isinstance(num, int):
